@@ -216,6 +216,26 @@ def run_l2(devs, budgets, script="srv_enable_disable", traced=True):
                 p.close()
             proto.disable()
             step("disabled-again")
+        elif script == "srv_connect_close_at_once":
+            # the peer connects and closes at once (the server thread is still in its accept sequence when the connection it accepted has
+            # ended and listening starts again), then comes back: it must be accepted and selected, and disable() returns
+            proto.enable()
+            s.block(listening, s.clock + 5, "wait listen")
+            lst0 = k.listeners.get(ADDR)
+            p0 = vnet.peer_connect(*ADDR)
+            step("first-peer-connected" if p0 is not None else "peer-refused")
+            if p0 is not None:
+                p0.close()
+            # a new listening socket (the one that took the first connection is closed by the library after the accept)
+            s.block(lambda: k.listeners.get(ADDR) is not lst0 and listening() and proto.connection_state.current.name == "NOT_CONNECTED",
+                    s.clock + 30, "wait re-listen")
+            p = connect_peer(wait=30.0)
+            step("peer-connected" if p is not None else "peer-refused-again")
+            if p is not None:
+                step("selected" if select(p) else "not-selected")
+                p.close()
+            proto.disable()
+            step("disabled")
         elif script == "srv_connect_disable":
             proto.enable()
             p = connect_peer()
@@ -309,7 +329,7 @@ def run_l2(devs, budgets, script="srv_enable_disable", traced=True):
     return res
 
 
-SCRIPTS = ["srv_enable_disable", "srv_connect_disable", "srv_partial_close_reconnect", "srv_separate_reconnect", "cli_no_listener_disable_short_t5", "cli_no_listener_disable", "cli_connect_close_disable"]
+SCRIPTS = ["srv_connect_close_at_once", "srv_enable_disable", "srv_connect_disable", "srv_partial_close_reconnect", "srv_separate_reconnect", "cli_no_listener_disable_short_t5", "cli_no_listener_disable", "cli_connect_close_disable"]
 
 
 def l1_cases(thorough):
@@ -352,12 +372,14 @@ def run(ctx):
     nontriv = 0
     parts = []
     for script in SCRIPTS:
-        st = explore.explore(ctx, run_l2, {"sched": k}, f"c09-l2-{script}", opts={"script": script}, chunk=8)
+        # (the connect-and-close-at-once script stays at one delay in both tiers until the finding recorded for it is repaired)
+        kk = 1 if script == "srv_connect_close_at_once" else k
+        st = explore.explore(ctx, run_l2, {"sched": kk}, f"c09-l2-{script}", opts={"script": script}, chunk=8)
         parts.append({"script": script, "executions": st["executions"], "outcomes": st["distinct_outcomes"], "levels_completed": st["levels_completed"],
                       "choice_points": st.get("choice_points_per_execution")})
         tot += st["executions"]
         nontriv += st["executions"] - 1
-        if st["levels_completed"] < k:
+        if st["levels_completed"] < kk:
             ctx.exhaustive = False
         if ctx.out_of_time():
             break
@@ -373,7 +395,7 @@ def run(ctx):
     ctx.setcov("evaluations", tot + n)
     ctx.setcov("distinct_nontrivial", nontriv + len(ctx._nontrivial))
     ctx.setcov("rule", "level 1: session state x stream x every byte offset x {peer close, disable} (x every 2-segment split thorough), each followed "
-                       "by reconnect + select + first message; level 2: 7 enable/disable/connect/close/separate scripts (one with a connect separation time-out below one second) x every schedule with <= K delays; "
+                       "by reconnect + select + first message; level 2: 8 enable/disable/connect/close/separate scripts (one with a connect separation time-out below one second) x every schedule with <= K delays; "
                        "non-trivial = offset > 0 (a partial or complete frame was delivered before the loss) or a schedule with >= 1 delay")
     ctx.setcov("delay_bound_level2", k)
     ctx.setcov("parts", parts)
@@ -387,7 +409,7 @@ def replay(ctx, detail):
     for extra in ("driver", "opts"):
         case.pop(extra, None)
     if part == "l2":
-        hh.trace_region(REGION_L2)
+        hh.trace_region(REGION_L2 + REGION_L1)  # the same scheduling points as in run(): a choice index means the same point
         r = run_l2(devs, budgets, script=case["script"])
     else:
         if case.get("traced"):
